@@ -105,10 +105,23 @@ theorem inv_init (h1 h2 : Hook) (nt : Bool) (ps pend : List Nat) : Inv h1 h2 nt 
   constructor <;> simp [init, Deep.hooks, this]
 
 theorem inv_step (h1 h2 : Hook) (nt : Bool) (d : Deep) (hi : Inv h1 h2 nt d) (op : Op) :
-    Inv h1 h2 nt (step d op) := by
+    Inv (hostView d (h1, h2) op).1 (hostView d (h1, h2) op).2 nt (step d op) := by
   cases op with
+  | hostSet s t =>
+    simp only [step, hostSet, hostView]
+    cases ht : d.w.tracing with
+    | true => simpa using hi
+    | false =>
+      simp only [Bool.false_eq_true, if_false]
+      constructor
+      · exact hi.nt_const
+      · intro h; simp at h
+      · intro _; simp [Deep.hooks]
+      · intro _; rfl
+      · intro hs hn; have := hi.started_tracing hs hn; simp [ht] at this
+      · intro _; rfl
   | start =>
-    simp only [step]
+    simp only [step, hostView]
     cases hs : d.started with
     | true => rw [start_started d hs]; exact hi
     | false =>
@@ -124,7 +137,7 @@ theorem inv_step (h1 h2 : Hook) (nt : Bool) (d : Deep) (hi : Inv h1 h2 nt d) (op
         have : d.noTrace = false := hi.nt_const.trans hnt
         constructor <;> simp_all [thStart_trace, Deep.hooks]
   | shutdown f =>
-    simp only [step]
+    simp only [step, hostView]
     cases hs : d.started with
     | false => rw [shutdown_not_started f d hs]; exact hi
     | true =>
@@ -140,7 +153,7 @@ theorem inv_step (h1 h2 : Hook) (nt : Bool) (d : Deep) (hi : Inv h1 h2 nt d) (op
         have hnt := hi.nt_const
         constructor <;> simp_all [thShutdown_not_tracing, Deep.hooks]
   | newConfig cfg =>
-    simp only [step]
+    simp only [step, hostView]
     have hk : (thNewConfig d.w cfg).sysHook = d.w.sysHook ∧ (thNewConfig d.w cfg).thrHook = d.w.thrHook ∧
         (thNewConfig d.w cfg).tracing = d.w.tracing ∧ (thNewConfig d.w cfg).oldSys = d.w.oldSys ∧
         (thNewConfig d.w cfg).oldThr = d.w.oldThr := by
@@ -154,7 +167,7 @@ theorem inv_step (h1 h2 : Hook) (nt : Bool) (d : Deep) (hi : Inv h1 h2 nt d) (op
     · intro hs hn; simp only [k3]; exact hi.started_tracing hs hn
     · intro hn; simp only [k3]; exact hi.notrace_idle hn
   | pollTick fl =>
-    simp only [step]
+    simp only [step, hostView]
     have hk : (pollTick fl d).w = d.w ∧ (pollTick fl d).started = d.started ∧ (pollTick fl d).noTrace = d.noTrace := by
       cases fl with
       | none => simp [pollTick]
@@ -168,11 +181,19 @@ theorem inv_step (h1 h2 : Hook) (nt : Bool) (d : Deep) (hi : Inv h1 h2 nt d) (op
     · intro hs hn; rw [k2] at hs; rw [k1]; exact hi.started_tracing hs hn
     · intro hn; rw [k1]; exact hi.notrace_idle hn
 
-theorem inv_run (h1 h2 : Hook) (nt : Bool) (ops : List Op) (d : Deep) (hi : Inv h1 h2 nt d) :
-    Inv h1 h2 nt (run ops d) := by
-  induction ops generalizing d with
+theorem inv_run (nt : Bool) (ops : List Op) (d : Deep) (h : Hook × Hook) (hi : Inv h.1 h.2 nt d) :
+    Inv (runH ops (d, h)).2.1 (runH ops (d, h)).2.2 nt (runH ops (d, h)).1 := by
+  induction ops generalizing d h with
   | nil => exact hi
-  | cons op ops ih => exact ih _ (inv_step h1 h2 nt d hi op)
+  | cons op ops ih =>
+    simp only [runH]
+    exact ih _ _ (inv_step h.1 h.2 nt d hi op)
+
+/-- `runH` is `run` plus the ghost component -/
+theorem runH_fst (ops : List Op) (d : Deep) (h : Hook × Hook) : (runH ops (d, h)).1 = run ops d := by
+  induction ops generalizing d h with
+  | nil => rfl
+  | cons op ops ih => simp only [runH, run, List.foldl]; exact ih _ _
 
 /-! ### quiet after stop -/
 
@@ -203,6 +224,11 @@ theorem quiet_step (d : Deep) (hq : Quiet d) (op : Op) : Quiet (step d op) := by
       | none => simp [pollTick]
       | some e => cases e <;> simp [pollTick] <;> split <;> simp
     simp only [Quiet, hk]; exact hq
+  | hostSet s t =>
+    simp only [step, hostSet]
+    split
+    · exact hq
+    · exact hq
 
 theorem quiet_run (ops : List Op) (d : Deep) (hq : Quiet d) : Quiet (run ops d) := by
   induction ops generalizing d with
